@@ -74,6 +74,7 @@ def build_registry(mods):
             reg.add_contract(c)
         for f, mm in m.models.items():
             reg.scoped_models.setdefault(m.prop, {})[f] = mm
+            reg.__dict__.setdefault('module_models', {}).setdefault(m, {})[f] = mm
         for ls in m.loops:
             reg.loops[(ls.qname, ls.ordinal)] = ls
     from contracts import common
@@ -81,6 +82,8 @@ def build_registry(mods):
     reg.models[common.forall_range] = _models.q_forall
     reg.models[common.exists_range] = _models.q_exists
     reg.models[common.is_opaque] = _models.m_is_opaque
+    reg.models[common.prefix_fold] = _models.m_prefix_fold
+    reg.models[common.forall_keys] = _models.q_forall_keys
     reg.models[common.items_of] = _models.m_items_of
     reg.link()
     # loop specs keyed by (file, ast-qualname, ordinal)
@@ -118,7 +121,14 @@ def _task_function(qname):
         try:
             c = _REG.contracts[qname]
             _REG.current_module = getattr(c, 'module', None)
-            rep = verify.verify_function(_REG, c)
+            prof = os.environ.get('PYVC_PROFILE')
+            if prof and prof in qname:
+                import cProfile
+                pr = cProfile.Profile()
+                rep = pr.runcall(verify.verify_function, _REG, c)
+                pr.dump_stats('/tmp/pyvc-profile-%d.prof' % os.getpid())
+            else:
+                rep = verify.verify_function(_REG, c)
             result['rep'] = _summarize(c, rep)
         except BaseException:
             result['crash'] = traceback.format_exc()
@@ -189,6 +199,7 @@ def _summarize(c, rep):
         'source': rep.source, 'sha256': rep.sha, 'wall': rep.wall, 'solver_time': solver_time,
         'by_backend': by_backend, 'vcs': vcs, 'samples': samples,
         'unknown_feasibility': rep.unknown_feasibility, 'feasibility_queries': rep.feasibility_queries,
+        'slow_queries': [list(q) for q in rep.slow_queries[:20]],
         'uncovered': rep.uncovered,
         'deps_sha': rep.deps_sha,
     }
@@ -371,6 +382,9 @@ def report(prop, mine, results, missing, seed, wall, args):
             continue
         if r['kind'] == 'function':
             rep = r['rep']
+            if args.verbose:
+                for q in rep.get('slow_queries', []):
+                    print('SLOW-FEASIBILITY %s: %s' % (rep['qname'], str(q)[:600]))
             functions.append({'name': rep['qname'], 'source': rep['source'], 'sha256': rep['sha256'],
                               'paths': rep['paths'], 'outcomes': rep['outcomes'],
                               'clauses': len(rep['clauses']), 'wall_s': round(rep['wall'], 2),
